@@ -58,7 +58,7 @@ func (ex *Exec) threadIntrinsic(name string, args []Value) Value {
 	switch name {
 	case "verifThread":
 		if ex.threads == nil {
-			ex.threads = &threadCtx{sharedMax: ex.nextObj, cur: -1, clockW: 16}
+			ex.threads = &threadCtx{sharedMax: ex.nextObj, cur: -1, clockW: 8}
 		}
 		sl, ok := args[0].(*SliceVal)
 		if !ok {
@@ -171,6 +171,9 @@ func (ex *Exec) joinThreads() {
 		}
 	}
 	tc.cur = -1
+	if len(tc.events) > 200 {
+		ex.unsupported("more than 200 shared-memory events: the 8-bit event clocks would not suffice")
+	}
 	W := tc.clockW
 	zero := tt.Const(W, 0)
 	var phi []*Term
